@@ -78,6 +78,14 @@ def handle (op : String) (args : List String) : Option String :=
       let e := efficienciesFromCounts c rs ri
       pure s!"{fl e.symmetric} {fl e.signal} {fl e.idler}"
     | _ => none
+  | "jsi_singles_point" => do
+    match ← floats args with
+    | [raw, n] => pure (fl (jsiSinglesPoint raw n))
+    | _ => none
+  | "jsi_point" => do
+    match ← floats args with
+    | [re, im, n] => pure (fl (jsiPoint re im n))
+    | _ => none
   | _ => none
 
 end Spdc.Driver.Counts
